@@ -429,14 +429,20 @@ func init() {
 			s := fr.i.px.sched
 			g := fr.g
 			for {
-				others := false
+				others, waiting := false, false
 				for _, t := range s.threads {
-					if t != g && s.enabled(t) {
+					if t == g || t.done {
+						continue
+					}
+					if s.enabled(t) {
 						others = true
+					} else {
+						waiting = true
 					}
 				}
 				if !others {
-					if !s.fireTimerBefore(fr.i.px.quiesceHorizon) {
+					// only goroutines that are blocked can need a timer
+					if !waiting || !s.fireTimerBefore(fr.i.px.quiesceHorizon) {
 						break
 					}
 					continue
@@ -488,6 +494,7 @@ func init() {
 			}
 			return strings.Join(parts, "; ")
 		},
+		"verifClock": func(fr *frame, a []value) value { return fr.i.px.clock },
 		"verifAllocDone": func(fr *frame, a []value) value {
 			fr.i.px.allocBudget = nil
 			return nil
